@@ -96,13 +96,12 @@ func (c *Ctx) registrations() (regs []registration, problems []string) {
 				if !strings.HasPrefix(fn.Name(), "init") {
 					problems = append(problems, fmt.Sprintf("%s: registration outside init (in %s)", c.InstrPos(call), fn.Name()))
 				}
-				r := registration{call: call, isList: callee == regList}
-				var ok1, ok2 bool
-				r.k, ok1 = constInt(call.Call.Args[0])
+				isList := callee == regList
+				ks, ok1 := constSetOf(call.Call.Args[0])
 				fi := 1
-				ok2 = true
-				if !r.isList {
-					r.v, ok2 = constInt(call.Call.Args[1])
+				vs, ok2 := []int64{0}, true
+				if !isList {
+					vs, ok2 = constSetOf(call.Call.Args[1])
 					fi = 2
 				}
 				f, ok3 := strip(call.Call.Args[fi]).(*ssa.Function)
@@ -110,13 +109,87 @@ func (c *Ctx) registrations() (regs []registration, problems []string) {
 					problems = append(problems, fmt.Sprintf("%s: registration with non-constant kind or non-static function", c.InstrPos(call)))
 					continue
 				}
-				r.fn = f
-				regs = append(regs, r)
+				for _, kk := range ks {
+					for _, vv := range vs {
+						regs = append(regs, registration{k: kk, v: vv, fn: f, call: call, isList: isList})
+					}
+				}
 			}
 		}
 	}
-	sort.SliceStable(regs, func(i, j int) bool { return regs[i].call.Pos() < regs[j].call.Pos() })
+	sort.SliceStable(regs, func(i, j int) bool {
+		if regs[i].call.Pos() != regs[j].call.Pos() {
+			return regs[i].call.Pos() < regs[j].call.Pos()
+		}
+		if regs[i].k != regs[j].k {
+			return regs[i].k < regs[j].k
+		}
+		return regs[i].v < regs[j].v
+	})
 	return
+}
+
+// constSetOf: v is a constant, or the element variable of a range loop over an array/slice literal of constants.
+func constSetOf(v ssa.Value) ([]int64, bool) {
+	if n, ok := constInt(v); ok {
+		return []int64{n}, true
+	}
+	ld, ok := v.(*ssa.UnOp)
+	if !ok || ld.Op != token.MUL {
+		return nil, false
+	}
+	ia, ok := ld.X.(*ssa.IndexAddr)
+	if !ok {
+		return nil, false
+	}
+	// the indexed array: a local composite literal (possibly copied once)
+	var lit *ssa.Alloc
+	switch x := ia.X.(type) {
+	case *ssa.Alloc:
+		lit = x
+	case *ssa.Slice:
+		lit, _ = x.X.(*ssa.Alloc)
+	}
+	if lit == nil {
+		return nil, false
+	}
+	collect := func(al *ssa.Alloc) ([]int64, bool) {
+		var out []int64
+		okAll := true
+		for _, r := range referrers(al) {
+			e, ok := r.(*ssa.IndexAddr)
+			if !ok {
+				continue
+			}
+			if _, isConstIdx := constInt(e.Index); !isConstIdx {
+				continue // the loop's own read
+			}
+			for _, rr := range referrers(e) {
+				if st, ok := rr.(*ssa.Store); ok && st.Addr == ssa.Value(e) {
+					n, ok := constInt(st.Val)
+					if !ok {
+						okAll = false
+					}
+					out = append(out, n)
+				}
+			}
+		}
+		return out, okAll && len(out) > 0
+	}
+	if out, ok := collect(lit); ok {
+		return out, true
+	}
+	// copy of another literal: *lit = *src
+	for _, r := range referrers(lit) {
+		if st, ok := r.(*ssa.Store); ok && st.Addr == ssa.Value(lit) {
+			if u, ok := st.Val.(*ssa.UnOp); ok {
+				if src, ok := u.X.(*ssa.Alloc); ok {
+					return collect(src)
+				}
+			}
+		}
+	}
+	return nil, false
 }
 
 func init() {
@@ -712,12 +785,21 @@ func (c *Ctx) checkMapLookup(s *obSink) (binaryExcluded bool, ok bool) {
 		s.bad("registerMapAppendFunc", "-", "not found")
 		ok = false
 	}
-	fn := sp.Func("updateMapAppendFunc")
-	if fn == nil {
-		s.bad("updateMapAppendFunc", "-", "not found")
+	var fn *ssa.Function
+	for _, cand := range c.ModuleFuncs(pkgReflect) {
+		for _, b := range cand.Blocks {
+			for _, in := range b.Instrs {
+				if lk, isLk := in.(*ssa.Lookup); isLk && path(lk.X) == "reflect.mapAppendFuncs" {
+					fn = cand
+				}
+			}
+		}
+	}
+	if fn == nil || descParam(fn) == nil {
+		s.bad("updateMapAppendFunc", "-", "no function looks fast paths up in mapAppendFuncs")
 		return false, false
 	}
-	t := fn.Params[0].Name()
+	t := descParam(fn).Name()
 	found := false
 	for _, b := range fn.Blocks {
 		for _, in := range b.Instrs {
@@ -750,25 +832,40 @@ func (c *Ctx) checkMapLookup(s *obSink) (binaryExcluded bool, ok bool) {
 		s.bad("updateMapAppendFunc.lookup", c.Pos(fn.Pos()), "no lookup in mapAppendFuncs")
 		ok = false
 	}
-	// every store to t.AppendFunc stores the looked-up function or the generic routine
+	// the selected routine is the looked-up function or the generic routine: check what the lookup function stores / returns
+	selected := func(v ssa.Value) (bool, string) {
+		v = strip(v)
+		if f, isF := v.(*ssa.Function); isF {
+			return f.Name() == "appendMapAnyAny", f.Name()
+		}
+		if ex, isEx := v.(*ssa.Extract); isEx {
+			_, good := ex.Tuple.(*ssa.Lookup)
+			return good, "table entry"
+		}
+		return false, path(v)
+	}
+	nSel := 0
 	for _, b := range fn.Blocks {
 		for _, in := range b.Instrs {
-			st, isSt := in.(*ssa.Store)
-			if !isSt || path(st.Addr) != t+".AppendFunc" {
-				continue
+			switch x := in.(type) {
+			case *ssa.Store:
+				if path(x.Addr) != t+".AppendFunc" {
+					continue
+				}
+				nSel++
+				good, what := selected(x.Val)
+				s.check(good, "updateMapAppendFunc.store", c.InstrPos(x), "AppendFunc = "+what, "AppendFunc set to "+what+", expected the table entry or appendMapAnyAny")
+			case *ssa.Return:
+				if len(x.Results) == 1 && strings.Contains(x.Results[0].Type().String(), "appendFuncType") {
+					nSel++
+					good, what := selected(x.Results[0])
+					s.check(good, "updateMapAppendFunc.store", c.InstrPos(x), "selects "+what, "selects "+what+", expected the table entry or appendMapAnyAny")
+				}
 			}
-			v := strip(st.Val)
-			good := false
-			what := path(v)
-			if f, isF := v.(*ssa.Function); isF {
-				good = f.Name() == "appendMapAnyAny"
-				what = f.Name()
-			} else if ex, isEx := v.(*ssa.Extract); isEx {
-				_, good = ex.Tuple.(*ssa.Lookup)
-				what = "table entry"
-			}
-			s.check(good, "updateMapAppendFunc.store", c.InstrPos(st), "AppendFunc = "+what, "AppendFunc set to "+what+", expected the table entry or appendMapAnyAny")
 		}
+	}
+	if nSel == 0 {
+		s.bad("updateMapAppendFunc.store", c.Pos(fn.Pos()), "the looked-up routine is never installed")
 	}
 	return binaryExcluded, ok
 }
